@@ -65,6 +65,57 @@ def key_symmetry(ctx, jm: JoinModel) -> None:
            message=f"{jm.variant}: " + "; ".join(p for p, _ in problems))
 
 
+def key_validation(ctx, rule: str = "a.key-validation") -> None:
+    """_validate_join_keys on its symx event log: no rejection may depend on a key column's schema other than through its KIND
+    (or its absence): keys with None on one side, i.e. columns that differ only in nullability, are admissible inputs; and the
+    admitted kinds include every kind the statement quantifies over."""
+    from ..sites2 import interp_of
+    from ..symx import flatten_conds
+    prog = ctx.prog
+    f = prog.func("table.Table._validate_join_keys")
+    it = interp_of(prog, f)
+    problems: List[Tuple[str, ast.AST]] = []
+    n = 0
+
+    def schema_uses(t, parent=None, out=None):
+        """(schema term, how it is used) for every use of <x>.schema() inside t"""
+        out = [] if out is None else out
+        if not isinstance(t, tuple) or not t:
+            return out
+        if t[0] == "call" and t[1][0] == "attr" and t[1][2] == "schema" and not t[2]:
+            out.append((t, parent))
+        if t[0] == "const":
+            return out
+        for x in t:
+            if isinstance(x, tuple):
+                schema_uses(x, t if t[0] in ("attr", "cmp", "call", "bool", "un") else parent, out)
+        return out
+    for e in it.events:
+        if e.kind != "raise":
+            continue
+        n += 1
+        for t, pol in flatten_conds(e.conds):
+            for sc, par in schema_uses(t):
+                ok = par is not None and ((par[0] == "attr" and par[1] == sc and par[2] == "kind")
+                                          or (par[0] == "cmp" and par[1] in ("Is", "IsNot") and NONE in (par[2], par[3])))
+                if not ok:
+                    problems.append((f"`raise {show(e.term, it)[:40]}` (line {getattr(e.node, 'lineno', '?')}) depends on a key column's schema "
+                                     f"through `{show(par, it)[:60] if par else show(t, it)[:60]}`, not only through its kind: key columns that "
+                                     f"differ in nullability only (a None on one side) would be rejected", e.node))
+            # the set of admitted kinds
+            if t[0] == "cmp" and t[1] == "In" and not pol and t[3][0] == "tuple" and any(x[0] == "attr" and x[2] == "kind" for x in subterms(t[2])):
+                names = {x[1] for x in t[3][1] if x[0] == "name"}
+                missing = {"int", "str", "bool", "date", "object"} - names
+                if missing:
+                    problems.append((f"the admitted key kinds {sorted(names)} lack {sorted(missing)}", e.node))
+    if n < 4:
+        raise AnalysisError(f"_validate_join_keys: only {n} rejection(s) found")
+    seen = set()
+    problems = [p_ for p_ in problems if not (p_[0] in seen or seen.add(p_[0]))]
+    ctx.ob(rule, f, "rejections", not problems, f"{n} rejections; schemas of key columns are consulted for their kind only", 
+           problems[0][1] if problems else f.node, message="; ".join(p_ for p_, _ in problems[:2]))
+
+
 def _validate_join_keys_shape(ctx) -> List[Tuple[str, ast.AST]]:
     f = ctx.prog.func("table.Table._validate_join_keys")
     d = Defs(f)
@@ -444,12 +495,45 @@ def determinism_of_function(prog, f) -> List[Tuple[str, ast.AST]]:
             if isinstance(par, ast.Expr):
                 continue
             problems.append((f"`{short(n, 40)}` is used as data: results may depend on the hash seed / addresses", n))
+        if isinstance(n, ast.Call) and isinstance(n.func, ast.Attribute) and n.func.attr in ("fingerprint", "__hash__") and not n.args:
+            par = prog.parent(n)
+            if isinstance(par, ast.Expr):
+                continue
+            problems.append((f"`{short(n, 40)}` is used as data: a fingerprint stands in for the contents, but unequal contents can have "
+                             f"equal fingerprints (hash(-1) == hash(-2)) - rows would be paired by a stale or foreign index", n))
     return problems
 
 
+def _new_helpers(prog, f, seen=None) -> List:
+    """functions outside the reference vocabulary that f calls (transitively)"""
+    from ..symx import baseline_functions
+    base = baseline_functions()
+    seen = {} if seen is None else seen
+    for c in prog.calls_in(f):
+        try:
+            kind, tgt = prog.resolve_call(f, c)
+        except Exception:
+            continue
+        if tgt is None or isinstance(tgt.node, ast.Lambda) or tgt.qualname in base or tgt.qualname in seen:
+            continue
+        seen[tgt.qualname] = tgt
+        _new_helpers(prog, tgt, seen)
+    return list(seen.values())
+
+
 def determinism(ctx, jf, rule: str = "f.determinism") -> None:
+    """jf: a JoinModel or the name of a join variant (the rule does not need the model: it must also speak when the join has been
+    restructured beyond it)."""
+    if isinstance(jf, str):
+        class _J:
+            pass
+        j = _J()
+        j.f = ctx.prog.func(f"table.Table.{jf}")
+        j.variant = jf
+        jf = j
     fns = [jf.f, ctx.prog.func("table.Table._validate_join_keys"),
            ctx.prog.func("table.Table._validate_key_tuple_hashable"), ctx.prog.func("table.Table._resolve_column")]
+    fns += [g for g in _new_helpers(ctx.prog, jf.f) if g not in fns]
     problems = []
     for f in fns:
         for msg, node in determinism_of_function(ctx.prog, f):
@@ -575,6 +659,56 @@ def no_early_result(ctx, jm: JoinModel, rule: str) -> None:
                 break
     ctx.ob(rule, f, "returns", not problems, f"{jm.variant}: every return follows the index, probe (and sweep) loops",
            problems[0][1] if problems else f.node, message=f"{jm.variant}: " + "; ".join(p for p, _ in problems[:2]))
+    # a return that does not hand out the filled buffers must be the EMPTY result, under a condition that implies that no row was
+    # emitted: inner - a table without rows or empty buffers; left - no left rows; full - no rows on EITHER side
+    from ..symx import dnf, subterms
+    rets = [e for e in it.events if e.kind == "return" and e.depth == 0]
+    final = max(rets, key=lambda e: e.seq) if rets else None
+    after = max(last.values()) if last else 0
+    probs2 = []
+    n_guards = 0
+
+    def zero_rows(t, pol):
+        """'L' / 'R' if the literal says that side has no rows"""
+        if t[0] == "cmp" and t[1] == "Eq" and pol:
+            for a, b in ((t[2], t[3]), (t[3], t[2])):
+                if b == const(0) and jm.rows_of(a):
+                    return jm.rows_of(a)
+        if not pol and jm.rows_of(t):
+            return jm.rows_of(t)
+        return None
+
+    def buffers_empty(t, pol) -> bool:
+        if not (t[0] == "call" and t[1][0] == "name" and ((t[1][1] == "all" and pol) or (t[1][1] == "any" and not pol))):
+            return False
+        return any(jm.bufseq(x) is not None for x in subterms(t)) or any(
+            x[0] == "obj" and any(jm.bufseq(lp.iter) is not None for lp in it.loops.values()
+                                  if lp.iter is not None and any(e.kind == "elem" and e.term == x and lp.id in e.loops for e in it.events))
+            for x in subterms(t))
+    for e in rets:
+        if e is final or e.seq < after:
+            continue
+        n_guards += 1
+        t = e.term
+        empty = t[0] == "call" and t[1] == ("name", "Table") and not t[3] and (
+            not t[2] or (len(t[2]) == 1 and ((t[2][0][0] == "tuple" and not t[2][0][1])
+                                             or (t[2][0][0] == "obj" and not it.objs[t[2][0][1]].init and not elements(it, t[2][0])))))
+        if not empty:
+            probs2.append((f"`return {jm.sh(t)[:50]}` (line {e.node.lineno}) returns something else than the filled result buffers", e.node))
+            continue
+        classes = dnf(e.conds)
+        if classes is None:
+            raise AnalysisError(f"{f.qualname}: the condition of the empty-result return has too many cases")
+        for cl in classes:
+            sides = {zero_rows(t_, pol) for t_, pol in cl} - {None}
+            be = any(buffers_empty(t_, pol) for t_, pol in cl)
+            ok = be or (jm.variant == "inner_join" and bool(sides)) or (jm.variant == "join" and "L" in sides) \
+                or (jm.variant == "full_join" and sides == {"L", "R"})
+            if not ok:
+                probs2.append((f"the empty table is returned (line {e.node.lineno}) when `{show_conds(sorted(cl, key=str), it)[:90]}`: "
+                               f"that does not imply an empty result - the rows already collected are dropped", e.node))
+    ctx.ob(rule, f, "empty-result", not probs2, f"{jm.variant}: {n_guards} empty-result return(s), each only when no row can have been emitted",
+           probs2[0][1] if probs2 else f.node, message=f"{jm.variant}: " + "; ".join(p for p, _ in probs2[:2]))
 
 
 # --------------------------------------------------------------------------- C10
